@@ -635,6 +635,29 @@ def drive_poly(mon: Monitor, rng: random.Random, n: int) -> None:
                   cls="biquadratic" if N >= 9 else "bilinear" if N >= 4 else "affine")
         A = Affine(rng.uniform(0.5, 2), rng.choice([0, 0, 0.2]), rng.uniform(-10, 10), rng.choice([0, 0, -0.1]), rng.uniform(0.5, 2), rng.uniform(-10, 10))
         p.with_input_transform(A)
+    # regular grids: one control point sits exactly at the centroid (centre of an odd x odd grid, centre of a quincunx)
+    for gx_, gy_ in ((3, 3), (5, 5), (3, 5), (7, 3)):
+        xs, ys = np.meshgrid(np.linspace(0, 100 * (gx_ - 1), gx_), np.linspace(0, 80 * (gy_ - 1), gy_))
+        aa = np.stack([xs.ravel(), ys.ravel()], axis=1)
+        for dtype in ("float64", "int64"):
+            bb = np.stack([100 + 0.1 * aa[:, 0] + 0.01 * aa[:, 1], -30 - 0.1 * aa[:, 1]], axis=1)
+            try:
+                p = M.Poly2d.fit(aa.astype(dtype), bb.copy())
+                q = np.array([[12.5, 7.0], [150.0, 33.0]])
+                want = np.stack([100 + 0.1 * q[:, 0] + 0.01 * q[:, 1], -30 - 0.1 * q[:, 1]], axis=1)
+                got = p(q)
+                mon.check(bool(np.isfinite(got).all() and np.abs(got - want).max() <= 1e-8), "Poly2d.heldout", lambda: {"grid": [gx_, gy_], "dtype": dtype, "got": got, "want": want},
+                          key="poly-centroid-point", cls="regular-grid")
+            except Exception as e:
+                mon.fail("Poly2d.heldout", {"grid": [gx_, gy_], "dtype": dtype, "exc": e}, key="poly-centroid-point", cls="regular-grid")
+    quincunx = np.array([[0, 0], [100, 0], [0, 80], [100, 80], [50, 40]], dtype="float64")
+    try:
+        bb = np.stack([5 + 2 * quincunx[:, 0], 7 - 3 * quincunx[:, 1]], axis=1)
+        p = M.Poly2d.fit(quincunx.copy(), bb)
+        got = p(np.array([[10.0, 10.0]]))
+        mon.check(bool(np.abs(got - [[25.0, -23.0]]).max() <= 1e-8), "Poly2d.heldout", lambda: {"points": "quincunx", "got": got}, key="poly-centroid-point", cls="regular-grid")
+    except Exception as e:
+        mon.fail("Poly2d.heldout", {"points": "quincunx", "exc": e}, key="poly-centroid-point", cls="regular-grid")
     for N in (0, 1, 2):
         try:
             M.Poly2d.fit(np.zeros((N, 2)), np.zeros((N, 2)))
@@ -703,7 +726,7 @@ def run(mon: Monitor, tier: str, seed: int, shard: int, nshards: int) -> None:
                       ("snap_grid|edge+", 50), ("snap_grid|edge-", 50), ("snap_grid|centre+", 50), ("snap_grid|centre-", 50),
                       ("snap_grid|float+", 50), ("snap_grid|float-", 50), ("snap_grid|fraction+", 50),
                       ("snap_scale|int", 50), ("snap_scale|1/int", 50), ("snap_scale|pass", 50),
-                      ("Poly2d.fit|affine", 20), ("Poly2d.fit|bilinear", 20), ("Poly2d.fit|biquadratic", 20),
+                      ("Poly2d.fit|affine", 20), ("Poly2d.heldout|regular-grid", 9), ("Poly2d.fit|bilinear", 20), ("Poly2d.fit|biquadratic", 20),
                       ("Bin1D.bin|dir+1", 100), ("Bin1D.bin|dir-1", 100)]:
             mon.floor(pt, n)
     finally:
